@@ -324,6 +324,7 @@ func (p *Parser) parseAmount() *ast.Amount {
 		amount.Commodity = ast.Commodity{
 			Symbol:   p.current.Value,
 			Position: ast.CommodityLeft,
+			Quoted:   isQuotedToken(p.current),
 			Range: ast.Range{
 				Start: toASTPosition(p.current.Pos),
 				End:   toASTPosition(p.current.End),
@@ -378,6 +379,7 @@ func (p *Parser) parseAmount() *ast.Amount {
 			amount.Commodity = ast.Commodity{
 				Symbol:   p.current.Value,
 				Position: ast.CommodityRight,
+				Quoted:   isQuotedToken(p.current),
 				Range: ast.Range{
 					Start: toASTPosition(p.current.Pos),
 					End:   toASTPosition(p.current.End),
@@ -389,6 +391,13 @@ func (p *Parser) parseAmount() *ast.Amount {
 
 	amount.Range.End = toASTPosition(p.current.Pos)
 	return amount
+}
+
+// isQuotedToken reports whether a commodity token was written in double
+// quotes: the lexer drops the quotes from the value, so the lexeme is longer
+// than the value.
+func isQuotedToken(tok Token) bool {
+	return tok.Type == TokenCommodity && tok.End.Offset-tok.Pos.Offset > len(tok.Value)
 }
 
 func (p *Parser) parseCost() *ast.Cost {
